@@ -65,6 +65,9 @@ package slug
 //@   ghost $lastRemove String = ""
 //@   at-call os.Create#1 C01,C15.unpack.file-not-through-link: $lstatPath == info.Path && ($lstatIsLink ==> $lastRemove == info.Path)
 //@   at-call os.MkdirAll#2 C01,C15.unpack.dir-not-through-link: a0 == info.Path && $lstatPath == info.Path && ($lstatIsLink ==> $lastRemove == info.Path)
+// nothing but a link is ever removed: a directory that was recorded for the deferred restore of its mode and times is
+// still a directory then (chmod and chtimes follow links), and no file or directory is lost to a later entry
+//@   at-call os.Remove C01,C15.unpack.only-links-removed: $lstatPath == a0 && $lstatIsLink
 // directory metadata is restored in archive order, so that for a directory recorded twice the last record wins
 //@   ghost $nextDir Int = 0
 //@   invariant loop1 C15.unpack.dir-order.inv1: $nextDir == 0
